@@ -580,6 +580,7 @@ func c10exec(c *h.Ctx, cs *h.Case) {
 	churnT0 := time.Now()
 	closedOnce := false
 	srvTCP, wsBase := false, 0
+	dbBusy := false
 	diverged := false
 	id := fmt.Sprintf("%d-%s", time.Now().UnixNano(), cs.ID)
 	goBefore := runtime.NumGoroutine()
@@ -621,11 +622,26 @@ func c10exec(c *h.Ctx, cs *h.Case) {
 			}
 			log.SetDebugVisible(0)
 			log.OutputToBuf()
+			c10dbRegister()
 			cl = fix.NewCluster(2, tk[1] == "tcp")
 			cl.L.Check = onet.CheckNone
 			tree = cl.Roster.GenerateBinaryTree()
 			srvTCP, wsBase = tk[1] == "tcp", c10wsStarts()
 			cs.Impl = append(cs.Impl, "ok")
+			continue
+		case "srvdb", "srvdbgo":
+			if cl == nil || len(tk) != 1 || (tk[0] == "srvdb") == dbBusy || (tk[0] == "srvdb" && closedOnce) {
+				bad()
+				continue
+			}
+			if tk[0] == "srvdb" {
+				cs.Impl = append(cs.Impl, c10dbBusy(cs, cl))
+				dbBusy = true
+			} else {
+				cs.Impl = append(cs.Impl, c10dbGo(cs, cl, closedOnce))
+				dbBusy = false
+			}
+			outcome = append(outcome, cs.Impl[len(cs.Impl)-1])
 			continue
 		case "srvstate":
 			if cl == nil || len(tk) != 1 {
@@ -920,6 +936,25 @@ func c10exec(c *h.Ctx, cs *h.Case) {
 				continue
 			}
 			cs.Impl = append(cs.Impl, c10backlog(ctl, cs, id, f, n))
+			outcome = append(outcome, cs.Impl[len(cs.Impl)-1])
+			continue
+		}
+		if tk[0] == "multi" {
+			ctl.mu.Lock()
+			fresh := len(ctl.threads) == 0 && len(ctl.peers) == 0
+			ctl.mu.Unlock()
+			n, e1 := 0, error(nil)
+			m, e2 := 0, error(nil)
+			if len(tk) == 3 {
+				n, e1 = strconv.Atoi(tk[1])
+				m, e2 = strconv.Atoi(tk[2])
+			}
+			if len(tk) != 3 || e1 != nil || e2 != nil || n < 1 || n > 8 || m < 0 || m > n || !fresh ||
+				strings.HasPrefix(tk[1], "+") || strings.HasPrefix(tk[2], "+") {
+				bad()
+				continue
+			}
+			cs.Impl = append(cs.Impl, c10multi(ctl, cs, n, m))
 			outcome = append(outcome, cs.Impl[len(cs.Impl)-1])
 			continue
 		}
@@ -1745,6 +1780,39 @@ func c10gen(c *h.Ctx, yield func(*h.Case)) {
 			ops = append(ops, fmt.Sprintf("srvclose2 %d", 2+r.Intn(3)))
 		}
 		emit("server:overlapping-closes", ops)
+	}
+	// a delivery in flight at a service while the server closes; the handler then uses the database
+	for _, tr := range transports {
+		emit("server:corpus-database-use-after-close", []string{"srv " + tr, "srvdb", "srvclose", "srvdbgo"})
+		emit("server:database-use-no-close", []string{"srv " + tr, "srvdb", "srvdbgo", "srvdb", "srvstart", "srvclose", "srvdbgo", "srvclose"})
+	}
+	for i := 0; i < c.Pick(6, 60); i++ {
+		ops := []string{"srv " + transports[r.Intn(2)]}
+		for k := r.Intn(3); k > 0; k-- {
+			ops = append(ops, "srvstart")
+		}
+		if r.Intn(3) == 0 {
+			ops = append(ops, "srvdb", "srvdbgo")
+		}
+		ops = append(ops, "srvdb")
+		if r.Intn(2) == 0 {
+			ops = append(ops, "srvclose")
+		} else {
+			ops = append(ops, fmt.Sprintf("srvclose2 %d", 2+r.Intn(4)))
+		}
+		if r.Intn(2) == 0 {
+			ops = append(ops, "srvclose")
+		}
+		ops = append(ops, "srvdbgo", "srvstart")
+		emit("server:database-use-after-close", ops)
+	}
+	// several connections with one peer, some of which end before the router stops
+	for _, tr := range transports {
+		emit("corpus-several-connections-one-peer", []string{"init " + tr, "multi 2 1"})
+	}
+	for i := 0; i < c.Pick(16, 160); i++ {
+		n := 1 + r.Intn(5)
+		emit("multi-connection:"+transports[i%2], []string{"init " + transports[i%2], fmt.Sprintf("multi %d %d", n, r.Intn(n+1))})
 	}
 	// a listener on its own: Stop calls, connection attempts and the accept loop running freely
 	for i := 0; i < c.Pick(20, 200); i++ {
